@@ -21,6 +21,8 @@ UNITS = {"": ("px", Fraction(1)), "px": ("px", Fraction(1)), "in": ("in", Fracti
          "Q": ("Q", Fraction(960, 1016)), "q": ("Q", Fraction(960, 1016)), "%": ("%", None)}
 SUFFIX_ALPHA = "pxinmctQq%eXPINMCT"
 REL = Fraction(1, 10 ** 9)
+# d = symbolic digit, s = symbolic sign (+ or -), e = symbolic e/E, '.' literal
+NUM_SHAPES = ["d", "d.d", ".d", "sd", "ded", "desd", "d.", "sd.d", "d.dEsd", "dd"]
 
 
 def load():
@@ -60,7 +62,7 @@ class Check(CheckBase):
     pid = "C12"
     title = "length parsing and unit conversion"
     bounds = {"text": "blank(0-1) + numeral atom + suffix of 0, 1 or 2 symbolic characters over %r + blank(0-1); blanks symbolic over space/tab/newline" % SUFFIX_ALPHA,
-              "value": "unbounded symbolic real; the atom may also be flagged non-numeric or be absent", "percent reference / default": "symbolic real"}
+              "value": "unbounded symbolic real (atom; may also be flagged non-numeric or be absent); and numerals spelled out with symbolic digits, signs and exponent marks in the shapes %s" % NUM_SHAPES, "percent reference / default": "symbolic real"}
     outside = ["inf, nan, infinity, digit separators, inner whitespace (float() accepts some of these: parseLengthWithUnits('nan') returns a value)",
                "binary64 rounding: equalities are up to relative 1e-9 because constants such as PX_PER_INCH / 25.4 are evaluated by CPython before they meet a symbolic value",
                "the digits of the numeral (atom: float(atom) is its value)"]
@@ -77,6 +79,11 @@ class Check(CheckBase):
                 for atom in ("valid", "invalid", "absent"):
                     cs.append({"label": "s%d/ws%d%d/%s" % (slen, lead, trail, atom), "slen": slen, "ws": (lead, trail), "atom": atom})
         cs.append({"label": "none", "slen": 0, "ws": (0, 0), "atom": "none"})
+        # numerals spelled out character by character (symbolic digits, signs and e/E) instead of an opaque atom
+        for shape in NUM_SHAPES if tier == "thorough" else NUM_SHAPES[:6]:
+            for slen in (0, 1, 2):
+                cs.append({"label": "chars/%s/s%d" % (shape, slen), "slen": slen, "ws": (0, 1) if slen else (1, 0), "atom": "chars", "shape": shape,
+                           "split_depth": 6})
         return cs
 
     def config(self, tier, case):
@@ -104,7 +111,23 @@ class Check(CheckBase):
             run.inputs["lead%d" % k] = c
             run._add(z3.Or([c == x for x in ws]))
             els.append(c)
-        if case["atom"] != "absent":
+        if case["atom"] == "chars":
+            num_chars = []
+            for k, ch in enumerate(case["shape"]):
+                c = run.fresh_int("num%d" % k)
+                run.inputs["num%d" % k] = c
+                if ch == "d":
+                    run._add(z3.And(c >= 48, c <= 57))
+                elif ch == "s":
+                    run._add(z3.Or(c == 43, c == 45))
+                elif ch in "eE":
+                    run._add(z3.Or(c == 69, c == 101))
+                else:
+                    run._add(c == ord(ch))
+                num_chars.append(c)
+            els += num_chars
+            v = SymStr(num_chars).to_float()        # the numeral's value by the (CPython-validated) float model
+        elif case["atom"] != "absent":
             els.append(Atom("num", v, case["atom"] == "valid"))
         sc = []
         for k in range(case["slen"]):
@@ -133,7 +156,7 @@ class Check(CheckBase):
             run.prove("no-exception", z3.BoolVal(False), info={"raised": repr(ex)[:200]})
             return
         is_unit = {u: suffix_is(suf, u) for u in UNITS if len(u) == len(sc)}
-        supported = zor(list(is_unit.values())) if case["atom"] == "valid" else False
+        supported = zor(list(is_unit.values())) if case["atom"] in ("valid", "chars") else False
         supported = z3.BoolVal(supported) if isinstance(supported, bool) else supported
         if pv is None:
             run.reach("rejected")
@@ -174,10 +197,14 @@ class Check(CheckBase):
         if case["atom"] == "none":
             ok = pu.parseLengthWithUnits(None) == (None, None) and pu.unitsToUserUnits(None) is None and pu.getLengthInches(FakeSelf(None), "w") is None
             return None if ok else {"None handling": "wrong"}
-        v = Fraction(i["v"])
-        # a numeral that float() reads back exactly when possible
-        num = {"valid": repr(float(v)), "invalid": "1..2", "absent": ""}[case["atom"]]
-        vf = Fraction(float(v)) if case["atom"] == "valid" else None
+        if case["atom"] == "chars":
+            num = "".join(chr(int(i["num%d" % k])) for k in range(len(case["shape"])))
+            vf = Fraction(float(num))
+        else:
+            v = Fraction(i["v"])
+            # a numeral that float() reads back exactly when possible
+            num = {"valid": repr(float(v)), "invalid": "1..2", "absent": ""}[case["atom"]]
+            vf = Fraction(float(v)) if case["atom"] == "valid" else None
         lead = "".join(chr(int(i["lead%d" % k])) for k in range(case["ws"][0]))
         trail = "".join(chr(int(i["trail%d" % k])) for k in range(case["ws"][1]))
         suf = "".join(chr(int(i["suf%d" % k])) for k in range(case["slen"]))
@@ -214,6 +241,27 @@ class Check(CheckBase):
         rnd = random.Random(seed)
         nat = loader.native("plot_utils")
         n = 0
+        # the float(str) model against CPython (values and ValueError) on random numeral-like strings
+        import re as real_re
+        for _ in range(300):
+            txt = "".join(rnd.choice("0123456789.+-eE 5") for _ in range(rnd.randint(0, 7)))
+            if real_re.search(r"[eE][+-]?\d{3,}", txt):
+                continue
+            try:
+                f = float(txt)
+                if f != f or f in (float("inf"), float("-inf")):
+                    continue
+                want = Fraction(txt.strip())
+            except ValueError:
+                want = "ValueError"
+
+            def hf(run):
+                try:
+                    return concrete(SymStr([z3.IntVal(ord(ch)) for ch in txt]).to_float())
+                except ValueError:
+                    return "ValueError"
+            assert run_pinned(hf) == want, "float() model disagrees with CPython on %r" % txt
+            n += 1
         samples = []
         for v in (0, 1, -2.5, 10, 25.4, 100):
             for suf in list(UNITS) + ["em", "ex", "P", "xx", "mQ", "%%"]:
